@@ -38,9 +38,10 @@ type (
 	SliceE struct{ X, Lo, Hi Expr }
 	QVar   struct{ Name, Sort string }
 	Quant  struct {
-		Forall bool
-		Vars   []QVar
-		Body   Expr
+		Forall   bool
+		Vars     []QVar
+		Body     Expr
+		Triggers [][]Expr
 	}
 )
 
@@ -90,7 +91,7 @@ type tok struct {
 func lexExpr(s string) ([]tok, error) {
 	var toks []tok
 	i := 0
-	ops := []string{"<==>", "==>", "::", "==", "!=", "<=", ">=", "&&", "||", "++", "<", ">", "+", "-", "*", "/", "%", "!", "(", ")", "[", "]", ",", ".", ":", "^"}
+	ops := []string{"<==>", "==>", "::", "==", "!=", "<=", ">=", "&&", "||", "++", "<", ">", "+", "-", "*", "/", "%", "!", "(", ")", "[", "]", "{", "}", ",", ".", ":", "^"}
 	for i < len(s) {
 		c := rune(s[i])
 		switch {
@@ -238,6 +239,21 @@ func (p *exprParser) parsePrimary() Expr {
 				break
 			}
 			p.expect("::")
+			var triggers [][]Expr
+			for p.peek().text == "{" {
+				p.next()
+				var tr []Expr
+				for {
+					tr = append(tr, p.parse(0))
+					if p.peek().text == "," {
+						p.next()
+						continue
+					}
+					break
+				}
+				p.expect("}")
+				triggers = append(triggers, tr)
+			}
 			body := p.parse(0)
 			// propagate sorts backwards: "i, j Int" gives both Int
 			for i := len(vars) - 2; i >= 0; i-- {
@@ -245,7 +261,7 @@ func (p *exprParser) parsePrimary() Expr {
 					vars[i].Sort = vars[i+1].Sort
 				}
 			}
-			return &Quant{t.text == "forall", vars, body}
+			return &Quant{t.text == "forall", vars, body, triggers}
 		}
 		if p.peek().text == "(" {
 			p.next()
@@ -383,7 +399,15 @@ func substitute(e Expr, m map[string]Expr) Expr {
 		for _, v := range e.Vars {
 			delete(m2, v.Name)
 		}
-		return &Quant{e.Forall, e.Vars, substitute(e.Body, m2)}
+		var trs [][]Expr
+		for _, tr := range e.Triggers {
+			var nt []Expr
+			for _, x := range tr {
+				nt = append(nt, substitute(x, m2))
+			}
+			trs = append(trs, nt)
+		}
+		return &Quant{e.Forall, e.Vars, substitute(e.Body, m2), trs}
 	}
 	panic(fmt.Sprintf("substitute: unknown node %T", e))
 }
